@@ -106,6 +106,7 @@ def rules_for(pid):
             ("S-fresh-serial", lambda c: RO.s_fresh_serial(c.P, c.E), 2),
             ("S-remove-and-test", lambda c: RO.s_remove_and_test(c.P, c.E), 1),
             ("D-atomic-latest", lambda c: _only(RJ.d_rules(c.P, c.E, c.H), ("D1", "D2"), ("sample", "debounce")), 2),
+            ("GATE", lambda c: ROPS.gates_rule(c.P, c.E, c.H), 3),
         ],
         "C04": [
             ("H-error", lambda c: RH.h_error(c.P, c.E, c.H), 26),
